@@ -13,6 +13,25 @@ from common import COQ, Check, ensure_impl_path, run_model, vm_crosscheck
 
 PROP = 'C02'
 
+MAX_REPLAYS_PER_KIND = 12
+
+
+def limit_violations(chk):
+    """A broken implementation fails on thousands of generated cases; write a replay file for the
+    first few of each kind only and count the rest in the evidence."""
+    orig = chk.violation
+    seen = {}
+
+    def violation(kind, *a, **kw):
+        seen[kind] = seen.get(kind, 0) + 1
+        if seen[kind] <= MAX_REPLAYS_PER_KIND:
+            return orig(kind, *a, **kw)
+        chk.extra.setdefault('violations_without_replay_file', {})
+        chk.extra['violations_without_replay_file'][kind] = seen[kind] - MAX_REPLAYS_PER_KIND
+        return None
+    chk.violation = violation
+
+
 INT_NAMES = ['uint8', 'int8', 'uint16', 'int16', 'uint32', 'int32', 'uint64', 'int64']
 FLT_NAMES = ['float16', 'float32', 'float64', 'longdouble']
 
@@ -1071,7 +1090,7 @@ def int_layer(chk, facts):
     small = [v for v in vals if v.bit_length() <= 140]
     mid = [v for v in vals if 140 < v.bit_length() <= 1100]
     if chk.tier == 'quick':
-        mid = sorted(mid, key=lambda v: (v.bit_length(), v))[::7]
+        mid = sorted(mid, key=lambda v: (v.bit_length(), v))[::11]
     # a handful of huge integers (exponent range of longdouble, the CPython string limit)
     huge = []
     for f in facts['fmts']:
@@ -1218,7 +1237,7 @@ def run(chk: Check):
                 'half gap, tie, double-rounding trap and overflow threshold of float16/32/64/longdouble plus random '
                 'bit patterns up to 1100 bits (and the longdouble exponent/CPython digit limits), shared_range for all '
                 '4x8 pairs, int_abs, can_cast, the (u)int->(u)int decisions for 3 writer classes x 8x8 types x '
-                'boundary/random (min,max) pairs. Arrays (<= 16 elements): seed-independent core = constants (incl. '
+                'boundary/random (min,max) pairs. Arrays (<= 24 elements): seed-independent core = constants (incl. '
                 'values not representable in float32), ranges touching the limits of every on-disk type, NaN/+-inf '
                 'mixtures, all-NaN, all-zero, 1e-40..1e38, subnormal steps, (u)int8..64 ranges x 8 on-disk integer types '
                 'x {3 array-writer classes directly, NIfTI-1/2, SPM99/SPM2, Analyze, MGH}; random tail from VERIF_SEED '
@@ -1234,6 +1253,7 @@ def run(chk: Check):
     chk.trusted.append('Flocq 4.1.0 IEEE754.BinarySingleNaN (operations executed after extraction; Coq stdlib Reals axioms '
                        'enter only through Flocq proofs erased by extraction)')
     chk.extra['unproved_statements'] = UNPROVED
+    limit_violations(chk)
     chk.extra['float_allowance'] = FLOAT_ALLOWANCE
     chk.build(gen_tables=gen_tables)
     chk.run_probes()
@@ -1243,10 +1263,10 @@ def run(chk: Check):
     # ------------------------------------------------------------ integer layer
     ilines, iops = int_layer(chk, facts)
     cases = (core_cases(quick=chk.tier == 'quick') + multislab_core(quick=chk.tier == 'quick')
-             + random_cases(chk.rng, chk.n(3000, 60000)) + multislab_random(chk.rng, chk.n(600, 12000)))
+             + random_cases(chk.rng, chk.n(2500, 60000)) + multislab_random(chk.rng, chk.n(500, 12000)))
     rlines, finite_range_eval = finite_range_item(chk, cases)
     alines = [model_line(i, c) for i, c in enumerate(cases)]
-    qcases = ideal_cases(chk.rng, chk.n(1500, 20000))
+    qcases = ideal_cases(chk.rng, chk.n(1000, 20000))
     qlines = [ideal_line(j, c) for j, c in enumerate(qcases)]
     # the extracted model runs (8 processes) while this process runs the implementation
     from concurrent.futures import ThreadPoolExecutor
